@@ -44,6 +44,10 @@ def from_fake(attrs):
     return [(int(a.key[1:]), from_fake(a.attrs)) for a in attrs]
 
 
+def coq_xforest(f):
+    return '[' + '; '.join('XNd %d %s %s' % (k, coq_xforest(cs), coq_xforest(ds)) for k, cs, ds in f) + ']'
+
+
 def coq_forest(f):
     return '[%s]' % '; '.join('Nd %d %s' % (k, coq_forest(cs)) for k, cs in f)
 
@@ -140,6 +144,25 @@ def run(ctx: Ctx) -> None:
 
             def attrs_forest(sym):
                 return [(kid(a.types.fullyname), attrs_forest(a)) for a in sym.attrs]
+
+            class TooBig(Exception):
+                pass
+            budget = [4000]
+
+            def xforest(sym, blocked, depth=0):
+                """attrs as (type key, attrs, attrs of the table entry of that type): the lookup _order_keys_recursive makes for a type of the
+                exported module that is not being listed already, unfolded in advance"""
+                out = []
+                for a in sym.attrs:
+                    budget[0] -= 1
+                    if budget[0] < 0 or depth > 12:
+                        raise TooBig()
+                    fn = a.types.fullyname
+                    decl = []
+                    if a.types.module_path == M and fn in db and fn not in blocked and db[fn] is not a:
+                        decl = xforest(db[fn], blocked | {fn}, depth + 1)
+                    out.append((kid(fn), xforest(a, blocked, depth + 1), decl))
+                return out
             modid = {}
 
             def mid(mp):
@@ -148,7 +171,14 @@ def run(ctx: Ctx) -> None:
             from rogw.tranp.dsn.module import ModuleDSN
             for k in db.keys():
                 sym = db[k]
-                rows.append((kid(k), mid(ModuleDSN.parsed(k)[0]), kid(sym.types.fullyname), mid(sym.types.module_path), attrs_forest(sym)))
+                try:
+                    in_m = ModuleDSN.parsed(k)[0] == M
+                    tf = sym.types.fullyname
+                    rdecl = xforest(db[tf], frozenset([tf])) if in_m and sym.types.module_path == M and tf in db and db[tf] is not sym else []
+                    rows.append((kid(k), mid(ModuleDSN.parsed(k)[0]), kid(tf), mid(sym.types.module_path), xforest(sym, frozenset()) if in_m else [], rdecl))
+                except TooBig:
+                    rows = None
+                    break
                 tmods[kid(sym.types.fullyname)] = mid(sym.types.module_path)
 
                 def walk(x):
@@ -156,10 +186,12 @@ def run(ctx: Ctx) -> None:
                         tmods[kid(a.types.fullyname)] = mid(a.types.module_path)
                         walk(a)
                 walk(sym)
+                if sym.types.fullyname in db:
+                    walk(db[sym.types.fullyname])
             tm = [tmods.get(j, 0) for j in range(len(allkeys))]
-            if len(rows) <= 700:
+            if rows is not None and len(rows) <= 700:
                 ocases.append(coq_pair(str(mid(M)), coq_list(map(str, tm)),
-                                       coq_list('{| rkey := %d; rmod := %d; rtype := %d; rtmod := %d; rattrs := %s |}' % (a, b, c, d, coq_forest(e)) for a, b, c, d, e in rows),
+                                       coq_list('{| rkey := %d; rmod := %d; rtype := %d; rtmod := %d; rattrs := %s; rdecl := %s |}' % (a, b, c, d, coq_xforest(e), coq_xforest(f)) for a, b, c, d, e, f in rows),
                                        coq_list(str(kid(k)) for k in order)))
                 oraw.append(dict(module=M, rows=len(rows)))
             # ---- oracle: export, unload, import, compare ----
